@@ -216,6 +216,21 @@ Theorem C05_trcl_phase_den :
 Proof. exact trcl_phase_den. Qed.
 Print Assumptions C05_trcl_phase_den.
 
+(* the hypothesis "no CellRef yet" of C05_trcl_phase_den cannot be dropped: on a table that
+   already holds a CellRef the TRCL loop leaves a stale cache entry (the referenced cell is
+   copied before its own TRCL overwrites it), from fresh counters and an empty cache *)
+Theorem C05_trcl_phase_with_cellrefs_refuted :
+  exists s s' : xstate,
+    fresh_ok Z sterm s /\ s_cache s = [] /\ NoDup (map fst (s_cells s)) /\
+    x_trcl_phase 5 (map fst (s_cells s)) s = Ok s' /\
+    ~ cache_coherent Z sterm Z x_empty Z.eqb x_inv x_sense s'.
+Proof.
+  exists ex2_state, ex2_after. split; [apply fresh_ok_check; reflexivity|]. split; [reflexivity|].
+  split; [cbn; repeat (constructor; [cbn; intuition discriminate|]); constructor|].
+  split; [exact ex2_runs | exact ex2_stale].
+Qed.
+Print Assumptions C05_trcl_phase_with_cellrefs_refuted.
+
 (* CellInlining.inline_cells (occurrence counting, scores, threshold, recursive substitution,
    in-place loop over the dictionary) for any threshold: every tree that had a value at a point
    - in particular every cell, through TRef - has the same value there afterwards, and only
